@@ -110,6 +110,68 @@ def test_statemodel_same():
     return 2
 
 
+def test_forms_same_and_forms():
+    from mc import forms as fm
+    assert not fm.same(np.inf, 1.0, rtol=1e-3)          # an infinite value is never "within tolerance" of a finite one
+    assert fm.same([1.0, np.nan], [1.0 + 1e-13, np.nan], rtol=1e-12)
+    a = np.array([[0.25, 3.0], [1024.0, 0.0]])
+    k = 0
+    for name, v in fm.forms(a, fm.ALL):
+        assert np.array_equal(np.asarray(v, dtype=float), a), name
+        k += 1
+    assert fm.form(np.array([0.1]), "f32") is None and fm.form(np.array([0.5, 2.0]), "i64") is None
+    return k
+
+
+def test_tape_owns_the_global_generator():
+    from mc.tape import OwnedRandom
+    g = np.random.mtrand._rand
+    np.random.seed(123)
+    before = np.random.get_state()[1].copy()
+    with OwnedRandom(7) as t:
+        a = np.random.random()                 # through the patched name
+        b = g.random_sample()                  # through the generator OBJECT: still the owned stream
+        with OwnedRandom(3):                   # a nested tape leaves the outer position alone
+            np.random.random(5)
+        c = np.random.random()
+    ref = np.random.RandomState(7)
+    assert (a, b, c) == (ref.random_sample(), ref.random_sample(), ref.random_sample())
+    assert np.array_equal(np.random.get_state()[1], before)   # the real stream is where it was
+    with t:                                    # re-entry continues the tape
+        assert np.random.random() == ref.random_sample()
+    return 4
+
+
+def test_one_preemption_explorer():
+    """A function that keeps a module-level scratch buffer between its lines is exposed; a pure one is not (on code outside the library the
+    tracer is pointed at this file)."""
+    from mc import threads
+    import mc.env as _env
+    old = _env.REPO
+    _env.REPO = os.path.dirname(os.path.abspath(__file__))
+    try:
+        scratch = {}
+
+        def shared(x):
+            scratch["v"] = x * 2
+            y = scratch["v"] + 1
+            return y
+
+        def pure(x):
+            v = x * 2
+            y = v + 1
+            return y
+
+        n, ref = threads.line_events(lambda: shared(5))
+        bad = sum(1 for k in range(1, n + 1) if threads.one_preemption(lambda: shared(5), lambda: shared(100), k)[0] != ref)
+        n2, ref2 = threads.line_events(lambda: pure(5))
+        bad2 = sum(1 for k in range(1, n2 + 1) if threads.one_preemption(lambda: pure(5), lambda: pure(100), k)[0] != ref2)
+        assert n >= 3 and bad >= 1 and bad2 == 0, (n, bad, bad2)
+    finally:
+        _env.REPO = old
+    return n + n2
+
+
 def main():
     for name, fn in sorted(globals().items()):
         if name.startswith("test_"):
